@@ -119,6 +119,13 @@ MUTANTS = [
     M("ft5-idx-after", "model/field_composite_model.py", "FieldCompositeModel.add_field", "f.idx = len(self.field_l)", "f.idx = len(self.field_l) + 1", ["C08"], "FT5"),
     M("ft6-wrapper-model", "rand_obj.py", "__getattribute__", "cm = model.get_constraint(a)", "cm = ret.model", ["C07"], "FT6"),
     M("ft9-getitem-conv", "types.py", "list_t.__getitem__", "v = -((~v & self.mask) + 1)", "v -= self.mask + 1", ["C18"], "FT9"),
+    M("lw7-swap-pops", "types.py", "expr.bin_expr", "rhs_e = pop_expr()\nlhs_e = pop_expr()", "lhs_e = pop_expr()\nrhs_e = pop_expr()", ["C01"], "LW7"),
+    M("lw7-invert-no-pop", "types.py", "expr.__invert__", "lhs = pop_expr()", "lhs = self.em", ["C01"], "LW7"),
+    M("rn5-rebind", "types.py", "rangelist.clear", "self.range_l.rl.clear()", "self.range_l = ExprRangelistModel()", ["C03"], "RN5"),
+    M("cv4-wrong-arg", "coverage.py", "sample", "ex_f.set_val(int(args[i]))", "ex_f.set_val(int(args[0]))", ["C10"], "CV4"),
+    M("bd6-enum-unsorted", "model/variable_bound_enum_model.py", "VariableBoundEnumModel.__init__", "self.domain.range_l.sort(key=lambda e: e[0])", "pass", ["C14"], "BD6"),
+    M("cv15-foreign-at-least", "visitors/coverage_save_visitor.py", "CoverageSaveVisitor.visit_coverpoint_cross", "cr.options.at_least", "cp.options.at_least", ["C13"], "CV15"),
+    M("nm1-memo", "model/expr_indexed_field_ref_model.py", "ExprIndexedFieldRefModel.get_target", "ret = fm", "ret = fm\nself._memo = fm", ["C08"], "NM1"),
 ]
 
 # behaviour-preserving rewrites: must stay silent for every property
